@@ -9,6 +9,7 @@ from .interp import Pruned, Interp, Outcome, MAX_STEPS, WIDEN_AFTER, short, SLIC
 from .facts import ty_is_mu
 
 ITER_TRAIT = 'core::iter::traits::iterator::Iterator'
+FN_TRAITS = ('core::ops::function::FnOnce', 'core::ops::function::FnMut', 'core::ops::function::Fn')
 DROP_TRAIT = 'core::ops::drop::Drop'
 
 
@@ -505,6 +506,17 @@ class Engine(Interp):
         if m is not None:
             self.stats['model_calls'] += 1
             return m(self, st, fid, t, args, dest_ty)
+        if callee.get('trait') in FN_TRAITS and args:
+            f = args[0]
+            if f[0] == 'ref' and f[2][0] in ('L', 'O'):
+                try:
+                    f = self.load(st, f[2])
+                except Unproven:
+                    f = args[0]
+            if f[0] == 'fn':
+                # calling a function item through the Fn* traits is calling that function
+                rest = list(args[1][1]) if len(args) > 1 and args[1][0] == 'tuple' else list(args[1:])
+                return self.call_fn_value(st, f, rest, fid, t, dest_ty)
         if callee['resolved'] == 'unresolved':
             r = self.dispatch_by_value(st, fid, t, args, dest_ty)
             if r is not None:
@@ -773,12 +785,28 @@ class Engine(Interp):
         out.append(('ret', st, ('opq', ('u', 'call', tuple(self.tag_of(a) for a in args)))))
         return out
 
-    def call_fn_value(self, st, f, args, fid):
+    def call_fn_value(self, st, f, args, fid, t=None, dest_ty=None):
         ty = f[2]
         lb = self.facts.bodies.get(ty['def'])
         if lb is not None:
             return self.call_local(st, lb.id, list(args), {})
-        return [('ret', st, ('opq', ('fnval', ty['def'])))]
+        # a function that is not part of the crate (e.g. `V::default` handed over as a callable):
+        # user code -- arbitrary result, may unwind
+        rtags = tuple(self.rtag(st, a) for a in args)
+        st.log('user', ty['def'], rtags)
+        self.stats['user_calls'] += 1
+        self.havoc_mut_refs(st, args)
+        out = []
+        if not st.unwinding:
+            u = st.fork()
+            u.unwinding = True
+            u.log('panic', 'user', ty['def'])
+            self.stats['escapes'] += 1
+            out.append(('unwind', u, None))
+        val = self.mk_unknown(st, dest_ty, ('u', ty['def'], rtags), self.gs_of(st, fid)) if dest_ty is not None \
+            else ('opq', ('u', ty['def'], rtags))
+        out.append(('ret', st, val))
+        return out
 
     # drops --------------------------------------------------------------------------------
     def drop_value(self, st, v, eff, depth=0):
@@ -924,6 +952,7 @@ class Engine(Interp):
                 out.append(('ret', a, some(('ref', mut, ('mu', mid, fr)))))
             st.zone.add_le(bk, fr)
             if st.zone.sat:
+                st.log('cursor-end', mid)
                 out.append(('ret', st, NONE))
             return out
         if h == 'adt':
